@@ -9,6 +9,7 @@ import OfxModel.Ofx.WF
 import OfxModel.Generated.Schema
 import OfxModel.Generated.Tables
 import OfxProofs.Lemmas.WFBridge
+import OfxProofs.Lemmas.Written
 
 namespace Ofx.Gen
 open Ofx Ofx.WF Ofx.Generated
@@ -52,5 +53,11 @@ theorem schema_clsWF (c : Cls) (hc : c ∈ schema.classes) (hx : c.name ∉ roun
   have hx' : roundTripExceptions.contains c.name = false := by simpa using hx
   rw [hx', Bool.false_or] at this
   exact roundTripOk_clsWF schema c this
+
+/-- class names and upper-cased attribute names of every concrete class are legal tags that
+    `ET.tostring(method="html")` does not treat specially, and no element attribute upper-cases into its own
+    class's name (premise `TagWF` of the end-to-end theorem) -/
+theorem schema_tagWF :
+    schema.classes.all (fun c => c.abstract || Ofx.Pipeline.tagWFb htmlEmpty c) = true := by decide +kernel
 
 end Ofx.Gen
